@@ -178,6 +178,17 @@ def r5_helpers(ctx):
             '_delete_cached tolerates a missing entry (missing_ok=True)',
             '_delete_cached fails when the entry is not cached: deleting a snapshot that was never cached fails only with the cache enabled',
         )
+    # the helpers touch their own entry only: removing / renaming directories races with another loader's mkdir + write
+    for f in (st, ge, de):
+        other = [c for c in calls_in(f.node) if isinstance(c.func, ast.Attribute) and c.func.attr in ('rmdir', 'removedirs', 'rmtree', 'rename', 'replace', 'touch')] + [c for c in calls_in(f.node) if (dotted(c.func) or '') in ('os.rmdir', 'os.removedirs', 'shutil.rmtree', 'os.rename', 'os.replace')]
+        ctx.check(
+            not other,
+            'C18.R5',
+            f'{func_label(f)}|helper-touches-own-entry-only',
+            loc(f, other[0]) if other else loc(f, f.node),
+            f'{f.name} reads / writes / unlinks its own entry only',
+            f'{f.name}: `{src(other[0], 50) if other else ""}` changes the cache directory structure: a concurrent loader that has just created the directory for a sibling entry fails to write it and the command fails only because the cache is on',
+        )
     # all three address the same file: Path(self._cache_directory, path)
     shapes = set()
     for f in (st, ge, de):
